@@ -1,33 +1,73 @@
 package main
 
 import (
+	"bytes"
+	"crypto"
+	"encoding/binary"
 	"fmt"
+	"io"
+	"time"
 
-	"github.com/foxboron/go-uefi/efi"
-	efifs "github.com/foxboron/go-uefi/efi/fs"
-	"github.com/spf13/afero"
-	"verif/gen/dpgen"
+	"github.com/foxboron/go-uefi/authenticode"
+	"verif/gen/pegen"
+	"verif/keys"
+	"verif/ref/refpe"
 )
 
-func main() {
-	fs := afero.NewMemMapFs()
-	g := "8be4df61-93ca-11d2-aa0d-00e098032b8c"
-	afero.WriteFile(fs, "/sys/firmware/efi/efivars/BootOrder-"+g, []byte{7, 0, 0, 0, 0x1A, 0x00, 0x01, 0xB0}, 0644)
-	lo := dpgen.LoadOption{Attributes: 1, Description: "x", Nodes: []dpgen.Node{{Kind: "PCI", Function: 1, Device: 2}}}.Bytes()
-	afero.WriteFile(fs, "/sys/firmware/efi/efivars/Boot001A-"+g, append([]byte{7, 0, 0, 0}, lo...), 0644)
-	afero.WriteFile(fs, "/sys/firmware/efi/efivars/BootB001-"+g, append([]byte{7, 0, 0, 0}, lo...), 0644)
-	efifs.SetFS(fs)
-	names := efi.GetBootOrder()
-	fmt.Printf("%q\n", names)
-	for _, n := range names {
-		func() {
-			defer func() {
-				if r := recover(); r != nil {
-					fmt.Println("panic:", r)
-				}
-			}()
-			o, err := efi.GetBootEntry(n)
-			fmt.Println(o != nil, err)
-		}()
-	}
+type sparse struct {
+	hdr  []byte
+	size int64
 }
+
+func (s *sparse) ReadAt(p []byte, off int64) (int, error) {
+	if off >= s.size {
+		return 0, io.EOF
+	}
+	n := len(p)
+	if int64(n) > s.size-off {
+		n = int(s.size - off)
+	}
+	for i := 0; i < n; i++ {
+		p[i] = 0
+	}
+	if off < int64(len(s.hdr)) {
+		copy(p[:n], s.hdr[off:])
+	}
+	if n < len(p) {
+		return n, io.EOF
+	}
+	return n, nil
+}
+
+func main() {
+	small := pegen.Build(pegen.Layout{PE32Plus: true, Lfanew: 0x40, Secs: []pegen.Sec{{RawSize: 8}}})
+	im, _ := refpe.Parse(small)
+	h := im.Sections[0].HeaderOff
+	big := uint32(1<<31 + 16)
+	hdr := append([]byte{}, small[:im.SizeOfHeaders]...)
+	binary.LittleEndian.PutUint32(hdr[h+8:], big)
+	binary.LittleEndian.PutUint32(hdr[h+16:], big)
+	s := &sparse{hdr, int64(im.SizeOfHeaders) + int64(big) + 3}
+	t0 := time.Now()
+	p, err := authenticode.Parse(s)
+	fmt.Println("parse", err, time.Since(t0))
+	if err != nil {
+		return
+	}
+	d := p.Hash(crypto.SHA256)
+	fmt.Printf("hash %x %v\n", d[:4], time.Since(t0))
+	_, err = p.Sign(keys.K(1), keys.C(1))
+	fmt.Println("sign", err, time.Since(t0))
+	ok, err := p.Verify(keys.C(1))
+	fmt.Println("verify", ok, err, time.Since(t0))
+	var tail bytes.Buffer
+	n, _ := io.Copy(io.Discard, io.TeeReader(p.Open(), &lastN{&tail, 4096}))
+	fmt.Println("open bytes", n, time.Since(t0))
+}
+
+type lastN struct {
+	b *bytes.Buffer
+	n int
+}
+
+func (l *lastN) Write(p []byte) (int, error) { return len(p), nil }
